@@ -741,6 +741,8 @@ class Screen(BaseScreen, RealTerminal):
         if self._resized:
             # handle resize before trying to draw screen
             return
+        # until the whole frame has been written nothing is known about what the terminal shows
+        self.screen_buf = None
         try:
             for line in output:
                 if isinstance(line, bytes):
